@@ -125,6 +125,21 @@ CLAIMED = {
    design_ref='DESIGN.md section 3, C18',
    note='Single faults only; sampled, not exhaustive, over the fault positions inside files. User-power inputs only.',
    technique='deterministic simulation: input/file fault injection with verdict-ordering oracle over the event history, serial and SimPool execution'),
+ 'C20': dict(
+   category='exploration',
+   text=('Seeded search over iteration histories of the real fixed-point loop: generated '
+         'user-power cores with an [Orificing] block (group counts 1..N, ties / clusters / '
+         'wide spreads of power, cut-off parameters, regroup never/once/every, iteration '
+         'limits, pressure-drop limits binding in zero/one/several groups) are run through '
+         'Orificing.optimize() against the real plant with its state on disk; after every '
+         '_group / regroup / distribute the partition, exact group count, ordering, equal '
+         'flow within a group, conservation against a harness-recomputed total, and the '
+         'pressure-drop limit are checked. The optimisation is repeated under permuted '
+         'directory listings, SimPool and wall-clock jumps and must distribute the same flows.'),
+   design_ref='DESIGN.md section 3, C20',
+   note=('An action ending in an exception or error exit counts as stopped with an error; '
+         'a reach probe requires completed optimisations. recycle_results = False.'),
+   technique='deterministic simulation: controller-in-the-loop invariants after every action of seeded iteration histories, with listing-order / pool / clock faults'),
  'C06': dict(
    category='exploration',
    text=('Seeded search over worlds and schedules: every generated multi-assembly '
